@@ -468,6 +468,28 @@ func (self *Fork) OutParams() *syntax.OutParams {
 	return self.node.call.Callable().GetOutParams()
 }
 
+// outputPath gets the value of the given output reference (an output name,
+// possibly followed by struct member names) from the fork's outputs,
+// projecting through arrays and typed maps according to the declared type of
+// the output.
+func (self *Fork) outputPath(outs LazyArgumentMap, arg string) json.Marshaler {
+	key, rest := arg, ""
+	if i := strings.IndexRune(arg, '.'); i >= 0 {
+		key, rest = arg[:i], arg[i+1:]
+	}
+	if rest != "" {
+		if params := self.OutParams(); params != nil {
+			if param := params.Table[key]; param != nil {
+				lookup := self.node.top.types
+				if t := lookup.Get(param.Tname); t != nil {
+					return typedJsonPath(outs[key], rest, t, lookup)
+				}
+			}
+		}
+	}
+	return outs.jsonPath(arg)
+}
+
 func (self *Fork) kill(message string) {
 	if state, _ := self.split_metadata.getState(); state == Queued || state == Running {
 		self.split_metadata.WriteErrorString(message)
@@ -727,7 +749,7 @@ func (self *Fork) removeEmptyFileArgs(outs LazyArgumentMap) {
 		return
 	} else {
 		for arg := range self.fileArgs {
-			if val := outs.jsonPath(arg); len(getMaybeFileNames(val)) == 0 {
+			if val := self.outputPath(outs, arg); len(getMaybeFileNames(val)) == 0 {
 				self.removeFileArg(arg)
 			}
 		}
